@@ -22,10 +22,10 @@ GRAMMAR = """
 Model: objs+=Obj boxes*=Box users+=User others*=Other;
 Obj: 'obj' name=ID;
 Box: 'box' name=ID '{' objs*=Obj '}';
-User: 'user' name=ID 'ref' r=[Obj%(rrel)s] 'many' rs+=[Obj%(rrel)s] ';';
+User: 'user' name=ID 'ref' r=[Obj%(rrel)s] 'many' rs+=[Obj%(rrel)s] (',' rs+=[Obj%(rrel)s])* ';';
 Other: 'other' name=ID 'ref' r=[Obj] ';';
 """
-MODEL = "obj a obj k0 obj k1 obj k2 obj k3 box b { obj a } user u ref a many a a ; other o ref a ;"
+MODEL = "obj a obj k0 obj k1 obj k2 obj k3 box b { obj a } user u ref a many a, a ; other o ref a ;"
 KEYS = {
     ('User', 'r'): ['User.r', '*.r', 'User.*', '*.*'],
     ('User', 'rs'): ['User.rs', '*.rs', 'User.*', '*.*'],
